@@ -27,6 +27,7 @@ type SpecWeight struct {
 }
 
 type Spec struct {
+	Severity map[string][]string
 	Presence string // "metric": an optional metric is written iff it is defined; "group": its whole group is written iff any member is defined
 	Weights  []SpecWeight
 	Modifies [][2]string
@@ -74,6 +75,11 @@ func loadSpec(ver string) (*Spec, error) {
 		case "group":
 			s.Groups[f[1]] = f[2:]
 			s.GOrder = append(s.GOrder, f[1])
+		case "severity":
+			if s.Severity == nil {
+				s.Severity = map[string][]string{}
+			}
+			s.Severity[f[1]] = f[2:]
 		case "presence":
 			s.Presence = f[1]
 		case "weight":
@@ -411,6 +417,22 @@ func (w *World) PreludeFor(pkg string) (string, []*Oblig, error) {
 			obl = append(obl, &Oblig{Name: fmt.Sprintf("gocvss%s/repr/weight_table_covers_codes/%s", pkg, sw.Name), Kind: "repr", Cond: okT})
 			fmt.Fprintf(&body, "(define-fun w%s_%s ((code BV8)) Real %s)\n", V, sw.Name, e)
 			preludeSorts[fmt.Sprintf("w%s_%s", V, sw.Name)] = SReal
+			// normal form of a code: the first code with the same weight (identifies X with its default)
+			ne := "code"
+			for k := len(codes) - 1; k >= 0; k-- {
+				rep := k
+				for j := 0; j < k; j++ {
+					if sw.W[codes[j]] == sw.W[codes[k]] || (sw.W[codes[j]] + ".0") == sw.W[codes[k]] || sw.W[codes[j]] == (sw.W[codes[k]] + ".0") || normNum(sw.W[codes[j]]) == normNum(sw.W[codes[k]]) {
+						rep = j
+						break
+					}
+				}
+				if rep != k {
+					ne = fmt.Sprintf("(ite (= code #x%02x) #x%02x %s)", k, rep, ne)
+				}
+			}
+			fmt.Fprintf(&body, "(define-fun norm%s_%s ((code BV8)) BV8 %s)\n", V, sw.Name, ne)
+			preludeSorts[fmt.Sprintf("norm%s_%s", V, sw.Name)] = SBV8
 		}
 		for _, md := range spec.Modifies {
 			mc, bc := byMetric[md[0]].Codes, byMetric[md[1]].Codes
@@ -584,4 +606,12 @@ func normSort(s string) string {
 		return SArrB
 	}
 	return s
+}
+
+func normNum(x string) string {
+	if strings.Contains(x, ".") {
+		x = strings.TrimRight(x, "0")
+		x = strings.TrimSuffix(x, ".")
+	}
+	return x
 }
